@@ -1,0 +1,17 @@
+//go:build verif
+
+package fzf
+
+// Verification hooks (build tag `verif`): thin exported wrappers around
+// unexported functions so that an external harness can drive them.
+// Add-only; nothing here is compiled into a normal build.
+
+// --- history.go ---
+
+func (h *History) VerifAppend(line string) error { return h.append(line) }
+func (h *History) VerifOverride(str string)      { h.override(str) }
+func (h *History) VerifCurrent() string          { return h.current() }
+func (h *History) VerifPrevious() string         { return h.previous() }
+func (h *History) VerifNext() string             { return h.next() }
+func (h *History) VerifCursor() int              { return h.cursor }
+func (h *History) VerifLines() []string          { return h.lines }
